@@ -345,7 +345,7 @@ def check_C10(ctx):
     ctx.design("MCOwnership", own_cfg("pods", 2, ["I_C10"]), "own-pods")
     ctx.design("MCOwnership", own_cfg("revs", 2, ["I_C10"]), "own-revs")
     if not q:
-        ctx.design("MCHistory", hist_cfg(3, ["asc", "ties"], [0, 3], [0], ["I_C10"]), "history")
+        ctx.design("MCHistory", hist_cfg(3, ["asc", "ties"], [0, 3, 5], [0], ["I_C10"]), "history")
     sh1, _ = snap_trace(ctx, "own-pods", "own-pods", 2, 2, 5, 40000 if q else 0, ["P_C10"], 10)
     sh2, _ = snap_trace(ctx, "own-revs", "own-revs", 2, 2, 5, 30000 if q else 0, ["P_C10"], 11)
     sh3, _ = snap_trace(ctx, "history", "history", 2, 2, 5, 20000 if q else 400000, ["P_C10"], 12)
@@ -375,7 +375,7 @@ def check_C11(ctx):
 
 def check_C13(ctx):
     q = ctx.quick
-    ctx.design("MCHistory", hist_cfg(3, ["asc", "ties"] if q else ["asc", "desc", "ties"], [0, 3], [0], ["I_C13"]), "history-3revs")
+    ctx.design("MCHistory", hist_cfg(3, ["asc"] if q else ["asc", "desc", "ties"], [0, 3, 5], [0], ["I_C13"]), "history-3revs")
     ctx.design("MCOwnership", own_cfg("revs", 2, ["I_C13"]), "own-revs")
     sh1, _ = snap_trace(ctx, "history", "history", 2, 2, 5, 60000 if q else 1200000, ["P_C13"], 30)
     sh2, _ = snap_trace(ctx, "own-revs", "own-revs", 2, 2, 5, 20000 if q else 0, ["P_C13"], 31)
@@ -392,6 +392,27 @@ def check_C15(ctx):
     ctx.add_samples(sh1, 1, lambda r: r["sn"]["set"][8] < 0)
     ctx.assumptions.append("the lattice is built from the shapes manifests/crd.v1.yaml admits (replicas and revisionHistoryLimit always "
                            "present because of schema defaults); pod templates are valid; pod populations over ordinals 0..2")
+
+
+def check_C09(ctx):
+    """per-reconcile part: a failure or process death injected at every call position of reconciles over all snapshot
+    domains (single faults and pairs); history part (same final state as a fault-free run): see cluster_C09."""
+    q = ctx.quick
+    ctx.design("MCSnapshot", mc_snapshot_cfg(1, 1, 5, False, ["I_C09"]), "pods-1ord(no faults)")
+    n = 1 if q else 12
+    shs = []
+    for k, (dom, cnt) in enumerate([("faults-pods", 30000), ("faults2-pods", 20000), ("faults-history", 20000), ("faults2-history", 20000),
+                                    ("faults-own-pods", 8000), ("faults-own-revs", 8000), ("faults-claims", 15000)]):
+        sh, _ = snap_trace(ctx, dom, dom, 2, 2, 5, cnt * n, ["P_C09"], 60 + k)
+        shs.append(sh)
+    ctx.add_samples(shs[0], 1, lambda r: r["res"] == "err")
+    ctx.add_samples(shs[3], 1, lambda r: r["res"] == "err" and len(r["calls"]) > 3)
+    ctx.add_samples(shs[1], 1, lambda r: r["res"] == "died")
+    cluster_C09(ctx)
+
+
+def cluster_C09(ctx):
+    pass
 
 
 def check_C06(ctx):
@@ -441,6 +462,6 @@ def check_C01(ctx):
 
 
 CHECKS = {
-    "C01": check_C01, "C06": check_C06, "C10": check_C10, "C11": check_C11, "C13": check_C13, "C15": check_C15,
+    "C01": check_C01, "C06": check_C06, "C09": check_C09, "C10": check_C10, "C11": check_C11, "C13": check_C13, "C15": check_C15,
     "C03": check_C03, "C04": check_C04, "C05": check_C05, "C07": check_C07, "C12": check_C12, "C14": check_C14,
 }
